@@ -3,6 +3,7 @@ borrow / lifetime / auto-trait verdicts) and a native slice differential (C15)."
 import os, glob, json, subprocess, concurrent.futures, itertools, hashlib
 
 VERIF = "/verif"
+REPO = "/repo"
 BUILD = VERIF + "/build"
 LEAN = VERIF + "/lean"
 DEPS = BUILD + "/harness-target/debug/deps"
@@ -79,27 +80,58 @@ def c13(tier, seed):
     serde = sorted(glob.glob(DEPS + "/libserde-*.rlib"), key=os.path.getmtime)
     configs = [("optimized", ["-C", "opt-level=3", "-C", "debug-assertions=off"]),
                ("avx", ["-C", "target-feature=+avx"]), ("avx2-opt", ["-C", "target-feature=+avx2,+fma", "-C", "opt-level=2"]),
-               ("debug-assertions-opt", ["-C", "opt-level=1", "-C", "debug-assertions=on"])]
+               ("debug-assertions-opt", ["-C", "opt-level=1", "-C", "debug-assertions=on"]),
+               ("panic-abort", ["-C", "panic=abort"]), ("panic-abort-opt", ["-C", "panic=abort", "-C", "opt-level=3"]),
+               ("native-cpu", ["-C", "target-cpu=native", "-C", "opt-level=2"]), ("debuginfo-opt", ["-C", "opt-level=3", "-g"]),
+               ("size-opt", ["-C", "opt-level=s", "-C", "overflow-checks=on"])]
     if serde:
         configs.append(("serde-feature", ["--cfg", 'feature="serde"', "--extern", "serde=" + serde[-1], "-L", "dependency=" + DEPS]))
+    built = []
     for name, flags in configs:
         lib = "%s/libminivec_%s.rlib" % (d, name.replace("-", "_"))
-        p1 = subprocess.run(["rustc", "--edition", "2018", "--crate-type", "rlib", "--crate-name", "minivec", "-A", "warnings", "-o", lib] + flags + ["/repo/src/lib.rs"],
+        p1 = subprocess.run(["rustc", "--edition", "2018", "--crate-type", "rlib", "--crate-name", "minivec", "-A", "warnings", "-o", lib] + flags + [REPO + "/src/lib.rs"],
                             capture_output=True, text=True)
         if p1.returncode != 0:
             viol.append({"signature": "c13-build-" + name, "concrete": False, "payload": {"what": "the crate does not compile in configuration " + name, "stderr": p1.stderr[-400:]}})
             continue
-        tflags = [f for f in flags if not f.startswith("feature=") and f != "--cfg"]
+        tflags = [f for f in flags if not f.startswith("feature=") and f != "--cfg" and not f.startswith("serde=") and f != "--extern"]
+        built.append((name, " ".join(flags), lib, tflags))
+    # ... and as cargo builds it (so that a build script, profile settings and RUSTFLAGS take part): dev, release, release
+    # with debug info, dev at opt-level 1, release for the native CPU, and with panic = "abort"
+    cargo_cfgs = [("cargo-dev", [], {}), ("cargo-release", ["--release"], {}),
+                  ("cargo-release-debuginfo", ["--release"], {"CARGO_PROFILE_RELEASE_DEBUG": "true"}),
+                  ("cargo-dev-opt1", [], {"CARGO_PROFILE_DEV_OPT_LEVEL": "1"}),
+                  ("cargo-release-native", ["--release"], {"RUSTFLAGS": "-C target-cpu=native"}),
+                  ("cargo-release-abort", ["--release"], {"CARGO_PROFILE_RELEASE_PANIC": "abort"}),
+                  ("cargo-dev-abort", [], {"CARGO_PROFILE_DEV_PANIC": "abort"})]
+    def cargo_one(cfg):
+        name, args, env = cfg
+        tdir = "%s/%s" % (d, name)
+        e = dict(os.environ); e.update(env); e["CARGO_NET_OFFLINE"] = "true"
+        if "RUSTFLAGS" not in env:
+            e.pop("RUSTFLAGS", None)
+        p1 = subprocess.run(["cargo", "build", "--offline", "--lib", "--manifest-path", REPO + "/Cargo.toml", "--target-dir", tdir] + args,
+                            capture_output=True, text=True, env=e)
+        return name, args, env, tdir, p1
+    with concurrent.futures.ThreadPoolExecutor(max_workers=7) as ex:
+        for name, args, env, tdir, p1 in ex.map(cargo_one, cargo_cfgs):
+            prof = "release" if "--release" in args else "debug"
+            lib = "%s/%s/libminivec.rlib" % (tdir, prof)
+            if p1.returncode != 0 or not os.path.exists(lib):
+                viol.append({"signature": "c13-build-" + name, "concrete": False, "payload": {"what": "cargo does not build the crate in configuration " + name, "stderr": p1.stderr[-400:]}})
+                continue
+            built.append((name, "cargo build %s %s" % (" ".join(args), " ".join("%s=%s" % kv for kv in env.items())), lib, ["-L", "dependency=%s/%s/deps" % (tdir, prof)]))
+    for name, how, lib, tflags in built:
         p2 = subprocess.run(["rustc", "--edition", "2021", "--emit=metadata", "--crate-type", "lib", "-A", "warnings", "--extern", "minivec=" + lib,
-                             "-L", "dependency=" + DEPS, "-o", "%s/c13_%s.rmeta" % (d, name)] + [f for f in tflags if not f.startswith("serde=") and f != "--extern"] + [path],
+                             "-L", "dependency=" + DEPS, "-o", "%s/c13_%s.rmeta" % (d, name)] + tflags + [path],
                             capture_output=True, text=True)
         n += len(C13_TYPES) * 4
         if p2.returncode != 0:
             viol.append({"signature": "c13-const-assert-" + name, "concrete": True,
-                         "payload": {"what": "a compile-time size/alignment assertion fails when the crate is built in configuration `%s` (%s)" % (name, " ".join(flags)),
+                         "payload": {"what": "a compile-time size/alignment assertion fails when the crate is built in configuration `%s` (%s)" % (name, how),
                                      "rustc": [l for l in p2.stderr.split("\n") if "error" in l][:5], "program": open(path).read()}})
     cov = {"evaluations": n, "distinct_nontrivial": n, "exhaustive": False,
-           "rule": "one const assertion per (element type, fact, build configuration) over %d element types of every size/alignment class (owning, borrowing, fat-pointer, over-aligned) and the crate built as the harness builds it, optimized without debug assertions, with AVX / AVX2 target features, optimized with debug assertions, and with the serde feature; all distinct" % len(C13_TYPES),
+           "rule": "one const assertion per (element type, fact, build configuration) over %d element types of every size/alignment class (owning, borrowing, fat-pointer, over-aligned) and the crate built as the harness builds it, by rustc directly (optimized without debug assertions, AVX / AVX2 / native-CPU target features, optimized with debug assertions, panic=abort, with debug info, for size, with the serde feature) and by cargo (dev, release, release with debug info, dev at opt-level 1, release for the native CPU, panic = abort in both profiles: a build script and profile-dependent cfgs take part); all distinct" % len(C13_TYPES),
            "samples": src[7:10], "traces_validated_against_impl": n if rc == 0 else 0}
     return viol, cov
 
@@ -173,6 +205,24 @@ LIFETIME_PROGS = [
     ("iter-mut-two", False, "use minivec::{MiniVec, mini_vec};\npub fn f() { let mut v: MiniVec<i32> = mini_vec![1]; let a = v.iter_mut(); let b = v.iter_mut(); drop(a); drop(b); }\n"),
     ("short-borrow-escapes", False, "use minivec::{MiniVec, mini_vec};\npub fn f() -> MiniVec<&'static i32> { let x = 5; let v = mini_vec![&x]; v }\n"),
     ("dropck-dangling", False, "use minivec::{MiniVec, mini_vec};\nstruct D<'a>(&'a i32);\nimpl<'a> Drop for D<'a> { fn drop(&mut self) { let _ = *self.0; } }\npub fn f() { let mut v: MiniVec<D> = MiniVec::new(); let x = 5; v.push(D(&x)); }\n"),
+    # a reference handed to a callback cannot escape the call (the callbacks take higher-ranked borrows: no public method
+    # but `leak` names a lifetime), and the crate's internal modules (the iterator constructors, whose lifetime parameter is
+    # tied to nothing) cannot be named by a client
+    ('escape-retain', False, 'use minivec::{MiniVec, mini_vec};\npub fn f() { let mut v: MiniVec<i32> = mini_vec![1, 2]; let mut keep: Vec<&i32> = vec![]; v.retain(|x| { keep.push(x); true }); let _ = keep.len(); }\n'),
+    ('escape-retain-ok', True, 'use minivec::{MiniVec, mini_vec};\npub fn f() { let mut v: MiniVec<i32> = mini_vec![1, 2]; let mut keep: Vec<i32> = vec![]; v.retain(|x| { keep.push(*x); true }); let _ = keep.len(); }\n'),
+    ('escape-dedup-by', False, 'use minivec::{MiniVec, mini_vec};\npub fn f() { let mut v: MiniVec<i32> = mini_vec![1, 2]; let mut keep: Vec<&mut i32> = vec![]; v.dedup_by(|a, _b| { keep.push(a); false }); let _ = keep.len(); }\n'),
+    ('escape-dedup-by-ok', True, 'use minivec::{MiniVec, mini_vec};\npub fn f() { let mut v: MiniVec<i32> = mini_vec![1, 2]; let mut keep: Vec<i32> = vec![]; v.dedup_by(|a, _b| { keep.push(*a); false }); let _ = keep.len(); }\n'),
+    ('escape-dedup-by-key', False, 'use minivec::{MiniVec, mini_vec};\npub fn f() { let mut v: MiniVec<i32> = mini_vec![1, 2]; let mut keep: Vec<&mut i32> = vec![]; v.dedup_by_key(|x| { keep.push(x); 0 }); let _ = keep.len(); }\n'),
+    ('escape-dedup-by-key-ok', True, 'use minivec::{MiniVec, mini_vec};\npub fn f() { let mut v: MiniVec<i32> = mini_vec![1, 2]; let mut keep: Vec<i32> = vec![]; v.dedup_by_key(|x| { keep.push(*x); 0 }); let _ = keep.len(); }\n'),
+    ('escape-dedup-by-key-returned', False, 'use minivec::{MiniVec, mini_vec};\npub fn f() { let mut v: MiniVec<i32> = mini_vec![1, 2]; v.dedup_by_key(|x| -> &mut i32 { x }); }\n'),
+    ('escape-drain-filter', False, 'use minivec::{MiniVec, mini_vec};\npub fn f() { let mut v: MiniVec<i32> = mini_vec![1, 2]; let mut keep: Vec<&mut i32> = vec![]; { let d = v.drain_filter(|x| { keep.push(x); false }); drop(d); } let _ = keep.len(); }\n'),
+    ('escape-drain-filter-ok', True, 'use minivec::{MiniVec, mini_vec};\npub fn f() { let mut v: MiniVec<i32> = mini_vec![1, 2]; let mut keep: Vec<i32> = vec![]; { let d = v.drain_filter(|x| { keep.push(*x); false }); drop(d); } let _ = keep.len(); }\n'),
+    ('internal-drain-ctor', False, 'pub use minivec::r#impl::drain::make_drain_iterator;\n'),
+    ('internal-splice-ctor', False, 'pub use minivec::r#impl::splice::make_splice_iterator;\n'),
+    ('internal-drain-filter-ctor', False, 'pub use minivec::r#impl::drain_filter::make_drain_filter_iterator;\n'),
+    ('internal-root-ctor', False, 'pub use minivec::make_drain_iterator;\n'),
+    ('internal-helpers', False, 'pub use minivec::r#impl::helpers::next_capacity;\n'),
+    ('public-iterator-types-ok', True, "pub fn f(_: minivec::Drain<'_, i32>, _: minivec::IntoIter<i32>) {}\n"),
 ]
 
 def lean_verdicts(progs):
@@ -331,9 +381,36 @@ fn check_ord<T: Clone + Ord + Hash + std::fmt::Debug>(a: &[T], b: &[T], n: &mut 
     if m.get(a) != Some(&1) || (m.get(b).is_some() != (a == b)) { bad.push(format!("HashMap lookup by slice {:?} {:?}", a, b)); }
     let mut t: BTreeMap<MiniVec<T>, u32> = BTreeMap::new(); t.insert(va.clone(), 1);
     if t.get(a) != Some(&1) || (t.get(b).is_some() != (a == b)) { bad.push(format!("BTreeMap lookup by slice {:?} {:?}", a, b)); }
+    // vectors hashed / compared as ELEMENTS of a slice (the provided `Hash::hash_slice`, nested vectors)
+    let mut s1 = Rec::default(); Hash::hash_slice(&[va.clone(), vb.clone()], &mut s1);
+    let mut s2 = Rec::default(); Hash::hash_slice(&[a, b], &mut s2);
+    if s1.0 != s2.0 { bad.push(format!("hash_slice {:?} {:?}", a, b)); }
+    let nested: MiniVec<MiniVec<T>> = mini_vec![va.clone(), vb.clone(), va.clone()];
+    let nref: Vec<Vec<T>> = vec![a.to_vec(), b.to_vec(), a.to_vec()];
+    if rec(&nested) != rec(&nref) || h(&nested) != h(&nref) { bad.push(format!("nested-vectors hash {:?} {:?}", a, b)); }
+    let nested2: MiniVec<MiniVec<T>> = mini_vec![va.clone(), va.clone(), vb.clone()];
+    let nref2: Vec<Vec<T>> = vec![a.to_vec(), a.to_vec(), b.to_vec()];
+    if nested.cmp(&nested2) != nref.cmp(&nref2) || (nested == nested2) != (nref == nref2) { bad.push(format!("nested-vectors cmp {:?} {:?}", a, b)); }
   } }
 }
+/// element types whose `Ord` is not the function their `PartialOrd` computes
+#[derive(Clone, Debug, PartialEq, Eq, Hash)] struct Prio(u8);
+impl PartialOrd for Prio { fn partial_cmp(&self, o: &Self) -> Option<std::cmp::Ordering> { self.0.partial_cmp(&o.0) } }
+impl Ord for Prio { fn cmp(&self, o: &Self) -> std::cmp::Ordering { o.0.cmp(&self.0) } }
+#[derive(Clone, Debug)] struct F(f64);
+impl PartialEq for F { fn eq(&self, o: &Self) -> bool { self.0 == o.0 } }
+impl Eq for F {}
+impl PartialOrd for F { fn partial_cmp(&self, o: &Self) -> Option<std::cmp::Ordering> { self.0.partial_cmp(&o.0) } }
+impl Ord for F { fn cmp(&self, o: &Self) -> std::cmp::Ordering { self.0.total_cmp(&o.0) } }
+fn check_cmp_only<T: Clone + Ord + std::fmt::Debug>(a: &[T], b: &[T], n: &mut u64, bad: &mut Vec<String>) {
+  let (va, vb) = (MiniVec::from(a), MiniVec::from(b));
+  *n += 1;
+  let r = std::panic::catch_unwind(std::panic::AssertUnwindSafe(|| (va.cmp(&vb), va.partial_cmp(&vb), va.clone().max(vb.clone()) == vb)));
+  let e = (a.cmp(b), a.partial_cmp(b), a.to_vec().max(b.to_vec()) == b.to_vec());
+  match r { Ok(r) if r == e => {}, Ok(r) => bad.push(format!("cmp-vs-partial_cmp {:?} {:?}: {:?} instead of {:?}", a, b, r, e)), Err(_) => bad.push(format!("cmp-panics {:?} {:?}", a, b)) }
+}
 fn main() {
+  std::panic::set_hook(Box::new(|_| {}));
   let seed: u64 = std::env::args().nth(1).and_then(|s| s.parse().ok()).unwrap_or(1);
   let rounds: usize = std::env::args().nth(2).and_then(|s| s.parse().ok()).unwrap_or(100);
   let mut r = R(seed); let mut n = 0u64; let mut bad = vec![];
@@ -359,6 +436,10 @@ fn main() {
     check_ord(&ra, &rb, &mut n, &mut bad);
     let ua: Vec<u8> = ia.iter().map(|x| *x as u8).collect(); let ub: Vec<u8> = ib.iter().map(|x| *x as u8).collect();
     check_ord(&ua, &ub, &mut n, &mut bad);
+    let pa: Vec<Prio> = ua.iter().map(|x| Prio(*x)).collect(); let pb: Vec<Prio> = ub.iter().map(|x| Prio(*x)).collect();
+    check_ord(&pa, &pb, &mut n, &mut bad);
+    let fa: Vec<F> = a.iter().map(|x| F(*x)).collect(); let fb: Vec<F> = b.iter().map(|x| F(*x)).collect();
+    check_cmp_only(&fa, &fb, &mut n, &mut bad);
   }
   let e: MiniVec<i64> = mini_vec![];
   if e != MiniVec::<i64>::new() || h(&e) != h(&[0i64; 0][..]) { bad.push("empty".into()); }
@@ -391,6 +472,6 @@ def c15(tier, seed):
         if p.returncode not in (0, 1):
             viol.append({"signature": "c15-crash", "concrete": True, "payload": {"what": "differential program crashed", "rc": p.returncode, "stderr": p.stderr[-300:]}})
     cov = {"evaluations": n, "distinct_nontrivial": n, "traces_validated_against_impl": n if not viol else 0,
-           "rule": "seeded pairs of element sequences (f64 incl. NaN/-0.0/inf, i64, String, i8 with negatives, Reverse<u8>, u8; equal, prefix-related, differing at one position, empty), each held in 6 vectors with different histories/capacities/alignments; every operator, the Hasher call sequence and HashMap/BTreeMap lookup by slice compared with the slice result; each (pair, variant a, variant b) counted once",
+           "rule": "seeded pairs of element sequences (f64 incl. NaN/-0.0/inf, i64, String, i8 with negatives, Reverse<u8>, u8, a type whose Ord is the reverse of its PartialOrd, a float wrapper ordered by total_cmp; equal, prefix-related, differing at one position, empty), each held in 6 vectors with different histories/capacities/alignments; every operator, the Hasher call sequence, Hash::hash_slice over vectors, nested vectors (hash and order) and HashMap/BTreeMap lookup by slice compared with the slice result; each (pair, variant a, variant b) counted once",
            "samples": [out[:200]]}
     return viol, cov
